@@ -80,6 +80,12 @@ type sink struct {
 }
 
 func (s *sink) emit(cls, name string, b []byte, val interface{}, reuse bool, note string) {
+	s.emitShown(cls, name, b, b, val, reuse, note)
+}
+
+// emitShown decodes b with the real decoder but shows the reference `shown` instead: used where b is `shown` plus unknown
+// fields too large for TLC (the harness' own builder vouches for their well-formedness; the note says what was added)
+func (s *sink) emitShown(cls, name string, b, shown []byte, val interface{}, reuse bool, note string) {
 	key := name + "|" + string(b)
 	if _, dup := s.seen[key]; dup {
 		return
@@ -103,7 +109,7 @@ func (s *sink) emit(cls, name string, b []byte, val interface{}, reuse bool, not
 	if died != "" { // the process would have died: recorded like a panic, with the runtime's message
 		rs.Panic, rs.RPanic = died, died
 	}
-	r := decRec{K: "dec", Cls: cls, S: name, Bytes: ints(b), Ok: rs.Ok, Dec: rs.Dec, Panic: rs.Panic, Alloc: rs.Alloc, Val: []int{}, FDec: []int{}, Note: note}
+	r := decRec{K: "dec", Cls: cls, S: name, Bytes: ints(shown), Ok: rs.Ok, Dec: rs.Dec, Panic: rs.Panic, Alloc: rs.Alloc, Val: []int{}, FDec: []int{}, Note: note}
 	if val != nil {
 		r.HasVal, r.Val = true, val
 	}
@@ -185,6 +191,32 @@ func mutantsFor(s *sink, name string, classes map[string]bool, capPer int) {
 				nb = append(nb, f.b...)
 			}
 			s.emit("extra", name, nb, val, true, "")
+		}
+		// one large unknown field: a list of 10050 empty structs, then the same again inside one more list (skipping it takes
+		// more than ten thousand struct skips in one reader); the reference is shown the encoding without it
+		for _, t := range []int{250, 17, 3} {
+			if tags[t] {
+				continue
+			}
+			big := append(mkHead(tLIST, t), mkCount(10050)...)
+			for i := 0; i < 10050; i++ {
+				big = append(big, mkHead(tSB, 0)...)
+				big = append(big, mkHead(11, 0)...) // StructEnd
+			}
+			var nb []byte
+			done := false
+			for _, sp := range spans {
+				if !done && sp.Tag > t {
+					nb = append(nb, big...)
+					done = true
+				}
+				nb = append(nb, b[sp.Start:sp.End]...)
+			}
+			if !done {
+				nb = append(nb, big...)
+			}
+			s.emitShown("extra", name, nb, b, val, false, "big-unknown-list-of-10050-structs")
+			break
 		}
 	}
 	if classes["absent"] {
